@@ -18,12 +18,6 @@ theorem header_regex_pin :
     Generated.PluralGrammar.pluralFormsRegex = Spec.PluralY.pluralFormsRegex ∧
     Generated.PluralGrammar.pluralFormsRegexFlags = 0 := by decide
 
-/-- what `analyse` hands to `gapRanges` -/
-def completedOf (st : WinState) (fin : WinEnd) : Option Preimage :=
-  match fin with
-  | .completed => some st.pre
-  | _ => none
-
 /-- **Truthfulness of "never produced" claims.**  Run the 200-window as `check_plurals` does (empty
     preimage at the start), then the gap analysis.  For every range `[a, b)` for which a
     `f(x) != a, …, b-1` diagnostic is emitted, NO `m` in `[0, 2^32)` evaluates to a value in it. -/
